@@ -74,7 +74,7 @@ func scenFold(out *scenOut, r *rng, thorough bool) {
 	// a message whose Send completed before termination began reaches Update,
 	// even when the termination strikes right behind it
 	for _, cause := range []string{"kill", "ctx", "quit"} {
-		for _, slow := range []string{"filter", "none"} {
+		for _, slow := range []string{"filter", "none", "update"} {
 			reps := 6
 			if thorough {
 				reps = 40
@@ -108,9 +108,36 @@ func sendThenEnd(out *scenOut, cause, slow string, idx int) {
 			return m
 		}))
 	}
+	inUpdate := make(chan struct{})
+	release := make(chan struct{})
+	if slow == "update" {
+		// the termination strikes while Update runs; Update returns only after it has struck
+		ctl.onUpdate = func(m tea.Msg, v int) tea.Cmd {
+			if u, ok := m.(userMsg); ok && u.Sender == 3 {
+				close(inUpdate)
+				select {
+				case <-release:
+				case <-time.After(3 * time.Second):
+				}
+			}
+			return nil
+		}
+	}
 	run := startProgram(ctl, nil, opts...)
 	desc := fmt.Sprintf("send-then-%s slow=%s #%d", cause, slow, idx)
 	run.p.Send(userMsg{3, idx}) // returns: the event loop has taken the message
+	if slow == "update" {
+		<-inUpdate
+		go func() {
+			// Kill() itself waits for the handlers; the context is what Update must outlast
+			select {
+			case <-tea.VerifCtx(run.p).Done():
+				time.Sleep(2 * time.Millisecond)
+			case <-time.After(50 * time.Millisecond): // a quit message is only queued behind Update
+			}
+			close(release)
+		}()
+	}
 	switch cause {
 	case "kill":
 		run.p.Kill()
@@ -127,6 +154,15 @@ func sendThenEnd(out *scenOut, cause, slow string, idx int) {
 	if n := ctl.log.count("update-enter", fmt.Sprintf("u3.%d ", idx)); n != 1 {
 		out.fail(finding{Property: "C01", Class: "new", What: "a message whose Send completed before the program began terminating did not reach Update exactly once",
 			Input: desc, Expected: "1 Update", Observed: fmt.Sprintf("%d", n)})
+	}
+	// Run returns the model the last Update returned, whatever ended the program
+	if rm, ok := run.model.(recModel); !ok || int32(rm.version) != atomic.LoadInt32(&ctl.versions) {
+		got := -1
+		if ok {
+			got = rm.version
+		}
+		out.fail(finding{Property: "C01", Class: "new", What: "Run did not return the model of the last Update", Input: desc,
+			Expected: fmt.Sprintf("version %d", atomic.LoadInt32(&ctl.versions)), Observed: fmt.Sprintf("version %d", got)})
 	}
 }
 
@@ -280,6 +316,65 @@ func scenCmds(out *scenOut, r *rng, thorough bool) {
 	}
 	for i := 0; i < reps; i++ {
 		scratchReuse(out, i)
+	}
+	for _, n := range []int{3, 70, 300} {
+		manyBlocked(out, n)
+	}
+}
+
+// manyBlocked: however many commands are blocked at the same time, a further command of the
+// same Batch is invoked and its result delivered; other messages keep flowing; then every
+// blocked command completes exactly once.
+func manyBlocked(out *scenOut, n int) {
+	ctl := newRecCtl()
+	release := make(chan struct{})
+	var started, probeRan int32
+	cmds := []tea.Cmd{nil}
+	for i := 0; i < n; i++ {
+		id := fmt.Sprintf("blk%d", i)
+		cmds = append(cmds, func() tea.Msg { atomic.AddInt32(&started, 1); <-release; return cmdMsg{id} })
+	}
+	cmds = append(cmds, nil, func() tea.Msg { atomic.AddInt32(&probeRan, 1); return cmdMsg{"probe"} })
+	ctl.onUpdate = func(m tea.Msg, v int) tea.Cmd {
+		if u, ok := m.(userMsg); ok && u.Sender == 0 && u.Seq == 0 {
+			return tea.Batch(cmds...)
+		}
+		return nil
+	}
+	run := startProgram(ctl, nil, tea.WithInput(nil), tea.WithoutSignalHandler())
+	desc := fmt.Sprintf("Batch(nil, %d commands that block until released, nil, probe)", n)
+	run.p.Send(userMsg{0, 0})
+	okProbe := waitFor(3*time.Second, func() bool { return ctl.log.has("update-exit", "c:probe") })
+	okStarted := waitFor(3*time.Second, func() bool { return atomic.LoadInt32(&started) == int32(n) })
+	sent := make(chan struct{})
+	go func() { run.p.Send(userMsg{0, 1}); close(sent) }()
+	okOther := waitFor(2*time.Second, func() bool { return ctl.log.has("update-exit", "u0.1") })
+	out.record(fmt.Sprintf("many-blocked/%d", n), desc)
+	if !okProbe {
+		out.fail(finding{Property: "C02", Class: "new", What: "a command of a Batch was not invoked (or its result not delivered) while other commands of the Batch were blocked", Input: desc,
+			Expected: "probe invoked and delivered", Observed: fmt.Sprintf("probe ran %d times, %d of %d blocking commands started", atomic.LoadInt32(&probeRan), atomic.LoadInt32(&started), n)})
+	}
+	if !okStarted {
+		out.fail(finding{Property: "C02", Class: "new", What: "not every command of the Batch was invoked while its siblings were blocked", Input: desc,
+			Expected: fmt.Sprint(n), Observed: fmt.Sprint(atomic.LoadInt32(&started))})
+	}
+	if !okOther {
+		out.fail(finding{Property: "C02", Class: "new", What: "blocked commands delayed an unrelated message", Input: desc})
+	}
+	close(release)
+	okAll := waitFor(5*time.Second, func() bool { return ctl.log.count("update-exit", "c:blk") == n })
+	if okProbe && okStarted && !okAll {
+		out.fail(finding{Property: "C02", Class: "new", What: "results of released commands were not all delivered exactly once", Input: desc,
+			Expected: fmt.Sprint(n), Observed: fmt.Sprint(ctl.log.count("update-exit", "c:blk"))})
+	}
+	run.p.Quit()
+	if !run.wait(3 * time.Second) {
+		run.p.Kill()
+		run.wait(3 * time.Second)
+		out.fail(finding{Property: "C02", Class: "new", What: "blocked commands delayed the program's exit", Input: desc})
+	}
+	if c := ctl.log.count("update-exit", "c:blk"); okAll && c != n {
+		out.fail(finding{Property: "C02", Class: "new", What: "a command result was delivered more than once", Input: desc, Observed: fmt.Sprint(c)})
 	}
 }
 
@@ -606,14 +701,19 @@ func seqOnce(out *scenOut, r *rng, idx int) {
 	shape := ""
 	for i := range elems {
 		id := fmt.Sprintf("s%d", i)
-		switch r.intn(7) {
+		switch r.intn(8) {
 		case 0:
 			elems[i] = seqElem{kind: "nil"}
 		case 1:
 			elems[i] = seqElem{kind: "nilresult", id: id}
-		case 2, 3:
+		case 2, 3, 7:
 			e := seqElem{kind: "batch", id: id}
 			k := r.rangeIn(0, 4)
+			if r.chance(1, 2) {
+				// a hand-built BatchMsg (tea.Batch would collapse batches of 0 or 1 commands)
+				e.kind = "rawbatch"
+				k = r.rangeIn(0, 2)
+			}
 			for j := 0; j < k; j++ {
 				if r.chance(1, 5) {
 					e.parts = append(e.parts, "")
@@ -647,16 +747,25 @@ func seqOnce(out *scenOut, r *rng, idx int) {
 			cmds = append(cmds, mk(e.id, dur(), true))
 		case "plain":
 			cmds = append(cmds, mk(e.id, dur(), false))
-		case "batch":
+		case "batch", "rawbatch":
 			var parts []tea.Cmd
 			for _, pid := range e.parts {
 				if pid == "" {
 					parts = append(parts, nil)
 				} else {
-					parts = append(parts, mk(pid, dur(), false))
+					d := dur()
+					if e.kind == "rawbatch" {
+						d += 2 * time.Millisecond // slower than whatever follows: not awaiting it shows
+					}
+					parts = append(parts, mk(pid, d, false))
 				}
 			}
-			cmds = append(cmds, tea.Batch(parts...))
+			if e.kind == "rawbatch" {
+				bm := tea.BatchMsg(parts)
+				cmds = append(cmds, func() tea.Msg { return bm })
+			} else {
+				cmds = append(cmds, tea.Batch(parts...))
+			}
 		}
 	}
 	last := "end"
@@ -706,7 +815,7 @@ func seqOnce(out *scenOut, r *rng, idx int) {
 		case "plain", "nilresult":
 			elemOf[e.id] = i
 			order = append(order, e.id)
-		case "batch":
+		case "batch", "rawbatch":
 			for _, pid := range e.parts {
 				if pid != "" {
 					elemOf[pid] = i
@@ -807,6 +916,86 @@ func scenFilter(out *scenOut, r *rng, thorough bool) {
 		filterOnce(out, r.fork(), i)
 	}
 	filterSignal(out)
+	for _, verdict := range []string{"keep", "drop", "replace"} {
+		for _, nested := range []bool{false, true} {
+			for _, from := range []string{"update", "init"} {
+				filterCmdBatch(out, verdict, nested, from)
+			}
+		}
+	}
+}
+
+// filterCmdBatch: a BatchMsg that a COMMAND produced (Init / Update returned tea.Batch) is a
+// message like any other: the filter is consulted for it exactly once and its verdict obeyed.
+func filterCmdBatch(out *scenOut, verdict string, nested bool, from string) {
+	ctl := newRecCtl()
+	var ran, batches int32
+	leaf := func(id string) tea.Cmd {
+		return func() tea.Msg { atomic.AddInt32(&ran, 1); return cmdMsg{id} }
+	}
+	var cmd tea.Cmd
+	wantBatches, leaves := 1, 2
+	if nested {
+		cmd = tea.Batch(tea.Batch(leaf("a"), leaf("b")), leaf("c"))
+		wantBatches, leaves = 2, 3
+	} else {
+		cmd = tea.Batch(leaf("a"), leaf("b"))
+	}
+	filter := func(name string, m tea.Msg) tea.Msg {
+		if _, ok := m.(tea.BatchMsg); ok {
+			n := atomic.AddInt32(&batches, 1)
+			if n == 1 { // the verdict concerns the outermost batch
+				switch verdict {
+				case "drop":
+					return nil
+				case "replace":
+					return userMsg{77, 0}
+				}
+			}
+		}
+		return m
+	}
+	if from == "init" {
+		ctl.initCmd = cmd
+	}
+	ctl.onUpdate = func(m tea.Msg, v int) tea.Cmd {
+		if u, ok := m.(userMsg); ok && u.Sender == 0 && u.Seq == 0 && from == "update" {
+			return cmd
+		}
+		return nil
+	}
+	run := startProgram(ctl, nil, tea.WithInput(nil), tea.WithoutSignalHandler(), loggingFilter(ctl, filter))
+	desc := fmt.Sprintf("filter verdict=%s for a BatchMsg produced by the command that %s returned (nested=%t)", verdict, from, nested)
+	run.p.Send(userMsg{0, 0})
+	expectRan := int32(leaves)
+	if verdict != "keep" {
+		expectRan = 0
+		wantBatches = 1
+	}
+	waitFor(2*time.Second, func() bool {
+		return atomic.LoadInt32(&batches) >= int32(wantBatches) && atomic.LoadInt32(&ran) >= expectRan &&
+			(verdict != "replace" || ctl.log.has("update-exit", "u77.0"))
+	})
+	time.Sleep(20 * time.Millisecond) // anything that should NOT happen has had its chance
+	run.p.Send(userMsg{0, 1})
+	run.p.Quit()
+	if !run.wait(5 * time.Second) {
+		out.fail(finding{Property: "C16", Class: "new", What: "program did not end", Input: desc, Observed: goroutineDump()})
+		return
+	}
+	out.record(desc, desc)
+	if got := atomic.LoadInt32(&batches); got != int32(wantBatches) {
+		out.fail(finding{Property: "C16", Class: "new", What: "filter not consulted exactly once for every batch message a command produced", Input: desc,
+			Expected: fmt.Sprint(wantBatches), Observed: fmt.Sprint(got)})
+	}
+	if got := atomic.LoadInt32(&ran); got != expectRan {
+		out.fail(finding{Property: "C16", Class: "new", What: "the commands of a batch message ran although the filter suppressed or replaced it (or did not run although it was let through)", Input: desc,
+			Expected: fmt.Sprint(expectRan), Observed: fmt.Sprint(got)})
+	}
+	ups := strings.Join(updatesOf(ctl.log.snapshot()), ",")
+	if verdict == "replace" && strings.Count(ups, "u77.0") != 1 {
+		out.fail(finding{Property: "C16", Class: "new", What: "the message substituted for a batch message did not reach Update exactly once", Input: desc, Observed: ups})
+	}
 }
 
 // filterSignal: an interrupt that comes from SIGINT is a message like any
